@@ -1796,7 +1796,359 @@ Proof.
   unfold np_matmul2, sum_over. f_equal. apply map_ext. intros j. apply (sr_mul_comm _ _ _ SR).
 Qed.
 
-(*CSCND*)
+(* ====================================================================== _dot_csc_ndarray_sparse *)
+(* a CSR triple assembled from a list of rows *)
+Lemma offs_length_ext {A B} (R : list (list A)) (R' : list (list B)) s :
+  map (@length A) R = map (@length B) R' -> offs s R = offs s R'.
+Proof.
+  revert R' s; induction R as [|r R IH]; intros [|r' R'] s H; simpl in *; try discriminate; [reflexivity|].
+  inversion H as [[H1 H2]]. rewrite H1, (IH R' _ H2). reflexivity.
+Qed.
+
+Section RowsCsr.
+  Variable V : Type.
+  Definition csr_of_rows (R : list (list (Z * V))) : csr V :=
+    mkCSR (map snd (concat R)) (map fst (concat R)) (offs 0 R).
+
+  Lemma csr_of_rows_row R i : (i < length R)%nat -> row_pairs (csr_of_rows R) (Z.of_nat i) = nth i R [].
+  Proof.
+    intros Hi. unfold row_pairs, csr_of_rows. simpl.
+    assert (Hsl : forall {B} (f : Z * V -> B),
+               slice_list (map f (concat R)) (znth (offs 0 R) (Z.of_nat i) 0) (znth (offs 0 R) (Z.of_nat i + 1) 0)
+               = map f (nth i R [])).
+    { intros B f. unfold znth. replace (Z.to_nat (Z.of_nat i + 1)) with (S i) by lia. rewrite Nat2Z.id.
+      rewrite <- rows_of_nth by (rewrite offs_length; lia).
+      rewrite concat_map, <- (offs_map f 0 R), rows_of_concat.
+      rewrite <- (map_nth (map f)). reflexivity. }
+    rewrite (Hsl _ fst), (Hsl _ snd). apply combine_fst_snd.
+  Qed.
+
+  Lemma csr_of_rows_wf n_row n_col R :
+    Z.of_nat (length R) = n_row -> 0 <= n_col ->
+    (forall r, In r R -> strictly_increasing (map fst r) = true /\ Forall (fun c => 0 <= c < n_col) (map fst r)) ->
+    csr_wfb n_row n_col (csr_of_rows R) = true.
+  Proof.
+    intros HR Hn Hrows. unfold csr_wfb, csr_of_rows. simpl. rewrite !andb_true_iff. repeat split.
+    - rewrite !map_length. apply Nat.eqb_refl.
+    - apply Z.leb_le. lia.
+    - apply Z.leb_le. exact Hn.
+    - apply Z.eqb_eq. rewrite offs_length. lia.
+    - destruct (offs_head 0 R) as [t Ht]. rewrite Ht. reflexivity.
+    - apply Z.eqb_eq. unfold znth. replace (Z.to_nat n_row) with (length R) by lia.
+      rewrite (nth_indep _ (-1) 0) by (rewrite offs_length; lia).
+      rewrite offs_last, map_length. lia.
+    - apply offs_nondecreasing.
+    - apply forallb_forall. intros c Hc. apply in_map_iff in Hc. destruct Hc as [[c' v] [<- Hc]]. simpl.
+      apply in_concat in Hc. destruct Hc as [row [Hrow Hc]]. destruct (Hrows _ Hrow) as [_ Hr].
+      rewrite Forall_forall in Hr. assert (In c' (map fst row)) by (apply in_map_iff; exists (c', v); auto).
+      specialize (Hr _ H). apply andb_true_iff. split; [apply Z.leb_le|apply Z.ltb_lt]; lia.
+    - rewrite concat_map, <- (offs_map fst 0 R), rows_of_concat.
+      apply forallb_forall. intros row Hrow. apply in_map_iff in Hrow. destruct Hrow as [r [<- Hr]].
+      apply Hrows. exact Hr.
+  Qed.
+End RowsCsr.
+
+Section CscNd.
+  Variable V : Type.
+  Variable vzero : V.
+  Variable vadd vmul : V -> V -> V.
+  Variable veqb : V -> V -> bool.
+  Hypothesis SR : comm_semiring vzero vadd vmul.
+  Hypothesis veqb_zero : forall x, veqb x vzero = true -> x = vzero.
+
+  Definition all_m1 (n : Z) (nx : list Z) : Prop :=
+    Z.of_nat (length nx) = n /\ forall k, 0 <= k < n -> znth nx k 0 = -1.
+
+  Lemma LL_of_all_m1 n nx : all_m1 n nx -> LL n nx (-2) 0 [].
+  Proof.
+    intros [Hn Hm]. constructor; [exact Hn|reflexivity|reflexivity|constructor|constructor|].
+    intros k0 Hk0. rewrite (Hm k0 Hk0). simpl. split; [tauto|congruence].
+  Qed.
+
+  Lemma emit_all_spec n l : forall nx sm head,
+    chain nx head l -> NoDup l -> Forall (fun x => 0 <= x < n) l ->
+    Z.of_nat (length nx) = n -> Z.of_nat (length sm) = n ->
+    exists nx' sm' h',
+      emit_all V vzero (length l) nx sm head = (nx', sm', h', map (fun k => (k, znth sm k vzero)) l)
+      /\ Z.of_nat (length sm') = n /\ Z.of_nat (length nx') = n
+      /\ (forall k, 0 <= k < n -> znth sm' k vzero = if mem_z k l then vzero else znth sm k vzero)
+      /\ (forall k, 0 <= k < n -> znth nx' k 0 = if mem_z k l then -1 else znth nx k 0).
+  Proof.
+    induction l as [|k l IH]; intros nx sm head Hc Hnd Hr Hn Hs.
+    - exists nx, sm, head. simpl. auto.
+    - simpl in Hc. destruct Hc as [-> Hc].
+      apply NoDup_cons_iff in Hnd. destruct Hnd as [Hnotin Hnd'].
+      pose proof (Forall_inv Hr) as Hk. pose proof (Forall_inv_tail Hr) as Hr'. simpl in Hk.
+      assert (Hr0 : Forall (fun x => 0 <= x) l) by (eapply Forall_impl; [|exact Hr']; simpl; intros; lia).
+      destruct (IH (wr nx k (-1)) (wr sm k vzero) (znth nx k 0)) as [nx' [sm' [h' [E [Hs' [Hn' [Hv Hw]]]]]]]; auto.
+      { apply chain_wr_notin; auto; lia. }
+      { rewrite wr_length; exact Hn. }
+      { rewrite wr_length; exact Hs. }
+      exists nx', sm', h'. split; [|split; [exact Hs'|split; [exact Hn'|split]]].
+      + simpl emit_all. rewrite E. simpl. f_equal. f_equal. apply map_ext_in. intros x Hx.
+        rewrite znth_wr_neq; [reflexivity|lia| |intros ->; contradiction].
+        rewrite Forall_forall in Hr0. apply Hr0. exact Hx.
+      + intros k0 Hk0. rewrite (Hv k0 Hk0). unfold mem_z. simpl.
+        destruct (Z.eqb_spec k0 k) as [->|Hne0]; simpl.
+        * rewrite znth_wr_eq by lia. destruct (existsb (Z.eqb k) l); reflexivity.
+        * rewrite znth_wr_neq by lia. reflexivity.
+      + intros k0 Hk0. rewrite (Hw k0 Hk0). unfold mem_z. simpl.
+        destruct (Z.eqb_spec k0 k) as [->|Hne0]; simpl.
+        * rewrite znth_wr_eq by lia. destruct (existsb (Z.eqb k) l); reflexivity.
+        * rewrite znth_wr_neq by lia. reflexivity.
+  Qed.
+
+  Variable a : csr V.
+  Variable b : Z -> Z -> V.
+  Variable n_in : Z.
+
+  Definition cstream (i : Z) : list (Z * V) := csc_stream V vzero vmul veqb a b n_in i.
+  Definition csc_abs_col (i : Z) : list (Z * V) :=
+    map (fun k => (k, ksum V vadd k vzero (cstream i))) (touched (map fst (cstream i))).
+  Definition csc_out_col (i : Z) : list (Z * V) := sort_cells V (csc_abs_col i).
+  Definition cstream_ok (m : Z) : Prop := forall i, Forall (fun kp => 0 <= fst kp < m) (cstream i).
+
+  Lemma csc_col_step_spec m mask sm out i :
+    cstream_ok m -> all_m1 m mask -> all_zero V vzero m sm ->
+    exists mask2 sm2,
+      csc_col_step V vzero vadd vmul veqb a b n_in (mask, sm, out) i = (mask2, sm2, out ++ csc_out_col i)
+      /\ all_m1 m mask2 /\ all_zero V vzero m sm2.
+  Proof.
+    intros Hk Hm1 [Hs Hz]. unfold csc_col_step. fold (cstream i). set (ps := cstream i).
+    destruct (acc_fold V vzero vadd m ps (Hk i) mask sm (-2) 0 [] (LL_of_all_m1 m mask Hm1) Hs)
+      as [nx1 [sm1 [h1 [len1 [E [HLL [Hs1 Hv]]]]]]].
+    rewrite E. destruct HLL as [Hnx Hlen Hc Hnd Hr Hm].
+    fold (touched (map fst ps)) in *. set (l := touched (map fst ps)) in *.
+    destruct (emit_all_spec m l nx1 sm1 h1 Hc Hnd Hr Hnx Hs1) as [nx2 [sm2 [h2 [E2 [Hs2 [Hn2 [Hv2 Hw2]]]]]]].
+    rewrite Hlen, Nat2Z.id, E2.
+    assert (Hrow : map (fun k => (k, znth sm1 k vzero)) l = csc_abs_col i).
+    { unfold csc_abs_col. fold ps. fold l. apply map_ext_in. intros k Hin.
+      rewrite Forall_forall in Hr. specialize (Hr _ Hin). rewrite (Hv k Hr), (Hz k Hr). reflexivity. }
+    exists nx2, sm2. split; [rewrite Hrow; reflexivity|]. split.
+    - split; [exact Hn2|]. intros k Hk0. rewrite (Hw2 k Hk0).
+      destruct (mem_z k l) eqn:Em; [reflexivity|].
+      destruct (Z.eq_dec (znth nx1 k 0) (-1)) as [?|Hne]; [assumption|].
+      exfalso. apply (Hm k Hk0) in Hne. apply mem_z_In in Hne. congruence.
+    - split; [exact Hs2|]. intros k Hk0. rewrite (Hv2 k Hk0).
+      destruct (mem_z k l) eqn:Em; [reflexivity|].
+      rewrite (Hv k Hk0), (Hz k Hk0). apply ksum_notin. intros Hin.
+      apply (proj2 (touched_In _ _)) in Hin. fold l in Hin. apply mem_z_In in Hin. congruence.
+  Qed.
+
+  Lemma csc_loops_fold m : cstream_ok m ->
+    forall (is : list Z) mask sm out, all_m1 m mask -> all_zero V vzero m sm ->
+    exists mask' sm',
+      fold_left (csc_col_step V vzero vadd vmul veqb a b n_in) is (mask, sm, out)
+      = (mask', sm', out ++ concat (map csc_out_col is)).
+  Proof.
+    intros Hk. induction is as [|i is IH]; intros mask sm out Hm Hz.
+    - exists mask, sm. simpl. rewrite app_nil_r. reflexivity.
+    - destruct (csc_col_step_spec m mask sm out i Hk Hm Hz) as [m2 [s2 [E [Hm2 Hz2]]]].
+      cbn [fold_left]. rewrite E.
+      destruct (IH m2 s2 (out ++ csc_out_col i) Hm2 Hz2) as [m' [s' E']].
+      exists m', s'. rewrite E'. simpl. rewrite <- app_assoc. reflexivity.
+  Qed.
+
+  (* the pre-count *)
+  Definition ckeys (i : Z) : list Z := csc_keys V vzero veqb (m_indices a) (m_indptr a) b n_in i.
+
+  Lemma cstream_keys i : length (m_indices a) = length (m_data a) -> map fst (cstream i) = ckeys i.
+  Proof.
+    intros Ha. unfold cstream, csc_stream, ckeys, csc_keys.
+    induction (zrange n_in) as [|j L IH]; simpl; [reflexivity|].
+    rewrite map_app, IH. f_equal. destruct (veqb (b j i) vzero); [reflexivity|].
+    rewrite map_map. simpl. apply (row_pairs_keys V a j Ha).
+  Qed.
+
+  Lemma csc_count_fold m : (forall i, Forall (fun k => 0 <= k < m) (ckeys i)) ->
+    forall (is : list Z) mask (rows : list (list Z)) bound,
+    Z.of_nat (length mask) = m ->
+    (forall x, 0 <= x < m -> znth mask x 0 < bound) ->
+    StronglySorted Z.lt is -> Forall (fun i => bound <= i) is ->
+    exists mask',
+      fold_left (fun (st : list Z * Z * list Z) i =>
+                   let '(mask, nnz, ptr) := st in
+                   let '(mask', col_nnz) := fold_left (cnt_step i) (ckeys i) (mask, 0) in
+                   (mask', nnz + col_nnz, ptr ++ [nnz + col_nnz]))
+                is (mask, Z.of_nat (length (concat rows)), tl (offs 0 rows))
+      = (mask', Z.of_nat (length (concat (rows ++ map (fun i => touched (ckeys i)) is))),
+         tl (offs 0 (rows ++ map (fun i => touched (ckeys i)) is))).
+  Proof.
+    intros Hk. induction is as [|i is IH]; intros mask rows bound Hn Hlt Hs Hb.
+    - exists mask. simpl. rewrite app_nil_r. reflexivity.
+    - apply StronglySorted_inv in Hs. destruct Hs as [Hs' Hall].
+      pose proof (Forall_inv Hb) as Hbi. pose proof (Forall_inv_tail Hb) as Hb'. simpl in Hbi.
+      destruct (cnt_fold m i (ckeys i) (Hk i) mask [] Hn) as [m' [E [Hn' [_ Hd]]]].
+      { intros x Hx. simpl. split; [tauto|]. intros H. specialize (Hlt x Hx). lia. }
+      simpl length in E. change (Z.of_nat 0) with 0 in E.
+      cbn [fold_left]. rewrite E. fold (touched (ckeys i)).
+      destruct (IH m' (rows ++ [touched (ckeys i)]) (i + 1) Hn') as [m'' E''].
+      { intros x Hx. destruct (Hd x Hx) as [H|H]; rewrite H; [specialize (Hlt x Hx)|]; lia. }
+      { exact Hs'. }
+      { eapply Forall_impl; [|exact Hall]. simpl. intros; lia. }
+      exists m''.
+      replace (Z.of_nat (length (concat rows)) + Z.of_nat (length (touched (ckeys i))))
+        with (Z.of_nat (length (concat (rows ++ [touched (ckeys i)]))))
+        by (rewrite concat_app; simpl; rewrite app_nil_r, app_length; lia).
+      replace (tl (offs 0 rows) ++ [Z.of_nat (length (concat (rows ++ [touched (ckeys i)])))])
+        with (tl (offs 0 (rows ++ [touched (ckeys i)]))).
+      2:{ rewrite offs_app. destruct (offs_head 0 rows) as [t Ht]. rewrite Ht. simpl.
+          f_equal. f_equal. rewrite concat_app. simpl. rewrite app_nil_r, app_length. lia. }
+      rewrite E''. simpl map. rewrite <- !app_assoc. reflexivity.
+  Qed.
+
+  Definition key_rows (p : Z) : list (list Z) := map (fun i => touched (ckeys i)) (zrange p).
+  Definition out_cols_abs (p : Z) : list (list (Z * V)) := map csc_out_col (zrange p).
+
+  Lemma csc_count_spec m p : 0 <= m -> (forall i, Forall (fun k => 0 <= k < m) (ckeys i)) ->
+    csc_ndarray_count_nnz V vzero veqb m n_in p (m_indices a) (m_indptr a) b
+    = (Z.of_nat (length (concat (key_rows p))), tl (offs 0 (key_rows p))).
+  Proof.
+    intros Hm Hk. unfold csc_ndarray_count_nnz.
+    destruct (csc_count_fold m Hk (zrange p) (repeat (-1) (Z.to_nat m)) [] 0) as [m' E].
+    - rewrite repeat_length. lia.
+    - intros x Hx. rewrite znth_repeat by lia. lia.
+    - apply zrange_SS.
+    - apply Forall_forall. intros x Hx. apply zrange_In in Hx. lia.
+    - unfold ckeys in E. cbn [concat length offs tl Z.of_nat app] in E. rewrite E. reflexivity.
+  Qed.
+
+  Lemma csc_rows_lengths p : length (m_indices a) = length (m_data a) ->
+    map (@length Z) (key_rows p) = map (@length (Z * V)) (out_cols_abs p).
+  Proof.
+    intros Ha. unfold key_rows, out_cols_abs. rewrite !map_map. apply map_ext. intros i.
+    unfold csc_out_col. rewrite (Permutation_length (sort_cells_perm V _)).
+    unfold csc_abs_col. rewrite map_length, cstream_keys by assumption. reflexivity.
+  Qed.
+
+  Lemma length_concat_lengths {A B} (R : list (list A)) (R' : list (list B)) :
+    map (@length A) R = map (@length B) R' -> length (concat R) = length (concat R').
+  Proof.
+    revert R'; induction R as [|r R IH]; intros [|r' R'] H; simpl in *; try discriminate; [reflexivity|].
+    inversion H. rewrite !app_length. rewrite (IH R'); auto.
+  Qed.
+
+  Lemma dot_csc_ok m p : csr_wfb n_in m a = true ->
+    dot_csc_ndarray_sparse V vzero vadd vmul veqb m n_in p a b = KOk (csr_of_rows V (out_cols_abs p)).
+  Proof.
+    intros Ha. destruct (csr_wfb_facts V _ _ _ Ha) as [Ha1 [_ [Hm [_ [Ha5 _]]]]].
+    assert (Hk : cstream_ok m).
+    { intros i. apply Forall_forall. intros [k v] Hin. unfold cstream, csc_stream in Hin.
+      apply in_flat_map in Hin. destruct Hin as [j [_ Hin]]. destruct (veqb (b j i) vzero); [contradiction|].
+      apply in_map_iff in Hin. destruct Hin as [kv [E Hin]]. inversion E; subst. simpl.
+      rewrite Forall_forall in Ha5. apply Ha5. eapply row_pairs_in_indices. exact Hin. }
+    assert (Hkk : forall i, Forall (fun k => 0 <= k < m) (ckeys i)).
+    { intros i. rewrite <- (cstream_keys i Ha1). specialize (Hk i). rewrite Forall_forall in *.
+      intros k Hin. apply in_map_iff in Hin. destruct Hin as [kp [<- Hin]]. apply Hk. exact Hin. }
+    unfold dot_csc_ndarray_sparse. rewrite (csc_count_spec m p Hm Hkk).
+    destruct (csc_loops_fold m Hk (zrange p) (repeat (-1) (Z.to_nat m)) (repeat vzero (Z.to_nat m)) [])
+      as [m' [s' E]].
+    { split; [rewrite repeat_length; lia|]. intros k Hk0. apply znth_repeat. lia. }
+    { apply all_zero_init. exact Hm. }
+    rewrite E. simpl app. fold (out_cols_abs p).
+    rewrite (length_concat_lengths _ _ (csc_rows_lengths p Ha1)), Z.ltb_irrefl.
+    unfold csr_of_rows. f_equal. f_equal.
+    rewrite (offs_length_ext _ _ 0 (csc_rows_lengths p Ha1)).
+    destruct (offs_head 0 (out_cols_abs p)) as [t Ht]. rewrite Ht. reflexivity.
+  Qed.
+
+  Lemma csc_out_col_keys i : map fst (csc_abs_col i) = touched (map fst (cstream i)).
+  Proof. unfold csc_abs_col. rewrite map_map. simpl. apply map_id. Qed.
+
+  Lemma csc_out_col_get i k : row_get V vzero (csc_out_col i) k = ssum V vzero vadd k (cstream i).
+  Proof.
+    unfold csc_out_col. rewrite (row_get_perm V vzero _ (csc_abs_col i) k (sort_cells_perm V _)).
+    2:{ eapply Permutation_NoDup; [apply Permutation_map, Permutation_sym, sort_cells_perm|].
+        rewrite csc_out_col_keys. apply touched_NoDup. }
+    unfold row_get, csc_abs_col. rewrite row_lookup_map_key by apply touched_NoDup.
+    destruct (mem_z k (touched (map fst (cstream i)))) eqn:E.
+    - rewrite (ksum_ssum V vzero vadd vmul SR). apply (sr_add_0_l _ _ _ SR).
+    - symmetry. apply ssum_notin. intros Hin. apply (proj2 (touched_In _ _)) in Hin. apply mem_z_In in Hin. congruence.
+  Qed.
+
+  Theorem csc_ndarray_proof m p : csr_wfb n_in m a = true -> 0 <= p ->
+    exists r, dot_csc_ndarray_sparse V vzero vadd vmul veqb m n_in p a b = KOk r
+      /\ Z.of_nat (length (m_data r)) = fst (csc_ndarray_count_nnz V vzero veqb m n_in p (m_indices a) (m_indptr a) b)
+      /\ csr_wfb p m r = true
+      /\ forall i k, 0 <= i < p ->
+           csr_den V vzero r i k
+           = np_matmul2 V vzero vadd vmul n_in (fun k j => csr_den V vzero a j k) b k i.
+  Proof.
+    intros Ha Hp. pose proof (dot_csc_ok m p Ha) as E.
+    destruct (csr_wfb_facts V _ _ _ Ha) as [Ha1 [_ [Hm [_ [Ha5 Ha6]]]]].
+    assert (Hk : cstream_ok m).
+    { intros i. apply Forall_forall. intros [k v] Hin. unfold cstream, csc_stream in Hin.
+      apply in_flat_map in Hin. destruct Hin as [j [_ Hin]]. destruct (veqb (b j i) vzero); [contradiction|].
+      apply in_map_iff in Hin. destruct Hin as [kv [E0 Hin]]. inversion E0; subst. simpl.
+      rewrite Forall_forall in Ha5. apply Ha5. eapply row_pairs_in_indices. exact Hin. }
+    exists (csr_of_rows V (out_cols_abs p)). split; [exact E|]. split; [|split].
+    - assert (Hkk : forall i, Forall (fun k => 0 <= k < m) (ckeys i)).
+      { intros i. rewrite <- (cstream_keys i Ha1). specialize (Hk i). rewrite Forall_forall in *.
+        intros k Hin. apply in_map_iff in Hin. destruct Hin as [kp [<- Hin]]. apply Hk. exact Hin. }
+      rewrite (csc_count_spec m p Hm Hkk). simpl. rewrite map_length.
+      rewrite (length_concat_lengths _ _ (csc_rows_lengths p Ha1)). reflexivity.
+    - apply csr_of_rows_wf; [unfold out_cols_abs; rewrite map_length; apply zrange_length; exact Hp|exact Hm|].
+      intros r Hr. unfold out_cols_abs in Hr. apply in_map_iff in Hr. destruct Hr as [i [<- _]].
+      assert (Hnd : NoDup (map fst (csc_out_col i))).
+      { eapply Permutation_NoDup; [apply Permutation_map, Permutation_sym, sort_cells_perm|].
+        rewrite csc_out_col_keys. apply touched_NoDup. }
+      split.
+      + apply SS_lt_strictly_increasing. apply sorted_nodup_strict; [apply sort_cells_sorted|exact Hnd].
+      + apply Forall_forall. intros c Hc.
+        eapply Permutation_in in Hc; [|apply Permutation_map, sort_cells_perm].
+        rewrite csc_out_col_keys in Hc. apply (proj1 (touched_In _ _)) in Hc. apply in_map_iff in Hc.
+        destruct Hc as [kp [<- Hin]]. specialize (Hk i). rewrite Forall_forall in Hk. apply (Hk _ Hin).
+    - intros i k Hi. unfold csr_den at 1.
+      replace i with (Z.of_nat (Z.to_nat i)) at 1 by lia.
+      rewrite csr_of_rows_row by (unfold out_cols_abs; rewrite map_length; unfold zrange; rewrite map_length, seq_length; lia).
+      unfold out_cols_abs. rewrite (nth_indep _ [] (csc_out_col 0))
+        by (rewrite map_length; unfold zrange; rewrite map_length, seq_length; lia).
+      rewrite map_nth, nth_zrange by assumption. rewrite csc_out_col_get.
+      unfold cstream, csc_stream. rewrite (ssum_flat_map V vzero vadd vmul SR).
+      unfold np_matmul2, sum_over. f_equal. apply map_ext_in. intros j Hj. apply zrange_In in Hj.
+      destruct (veqb (b j i) vzero) eqn:Ez.
+      + apply veqb_zero in Ez. rewrite Ez, (sr_mul_0_r _ _ _ SR). reflexivity.
+      + rewrite (ssum_scaled V vzero vadd vmul SR).
+        * apply (sr_mul_comm _ _ _ SR).
+        * rewrite row_pairs_keys by assumption. apply SS_lt_NoDup, strictly_increasing_SS, Ha6. exact Hj.
+  Qed.
+End CscNd.
+
+
+(* the three parts of csc_ndarray_proof as separate statements (Props/C04.v) *)
+Lemma csc_ndarray_count_exact_proof :
+  forall (V : Type) (vzero : V) (vadd vmul : V -> V -> V) (veqb : V -> V -> bool), comm_semiring vzero vadd vmul ->
+  (forall x, veqb x vzero = true -> x = vzero) ->
+  forall (a : csr V) (b : Z -> Z -> V) (n_in m p : Z), csr_wfb n_in m a = true -> 0 <= p ->
+    exists r, dot_csc_ndarray_sparse V vzero vadd vmul veqb m n_in p a b = KOk r
+      /\ Z.of_nat (length (m_data r)) = fst (csc_ndarray_count_nnz V vzero veqb m n_in p (m_indices a) (m_indptr a) b).
+Proof.
+  intros V vzero vadd vmul veqb SR Hz a b n_in m p Ha Hp.
+  destruct (csc_ndarray_proof V vzero vadd vmul veqb SR Hz a b n_in m p Ha Hp) as [r [E [Hc _]]]. exists r. auto.
+Qed.
+
+Lemma csc_ndarray_rows_sorted_proof :
+  forall (V : Type) (vzero : V) (vadd vmul : V -> V -> V) (veqb : V -> V -> bool), comm_semiring vzero vadd vmul ->
+  (forall x, veqb x vzero = true -> x = vzero) ->
+  forall (a : csr V) (b : Z -> Z -> V) (n_in m p : Z), csr_wfb n_in m a = true -> 0 <= p ->
+    exists r, dot_csc_ndarray_sparse V vzero vadd vmul veqb m n_in p a b = KOk r /\ csr_wfb p m r = true.
+Proof.
+  intros V vzero vadd vmul veqb SR Hz a b n_in m p Ha Hp.
+  destruct (csc_ndarray_proof V vzero vadd vmul veqb SR Hz a b n_in m p Ha Hp) as [r [E [_ [Hw _]]]]. exists r. auto.
+Qed.
+
+Lemma csc_ndarray_den_proof :
+  forall (V : Type) (vzero : V) (vadd vmul : V -> V -> V) (veqb : V -> V -> bool), comm_semiring vzero vadd vmul ->
+  (forall x, veqb x vzero = true -> x = vzero) ->
+  forall (a : csr V) (b : Z -> Z -> V) (n_in m p : Z), csr_wfb n_in m a = true -> 0 <= p ->
+    exists r, dot_csc_ndarray_sparse V vzero vadd vmul veqb m n_in p a b = KOk r
+      /\ forall i k, 0 <= i < p ->
+           csr_den V vzero r i k = np_matmul2 V vzero vadd vmul n_in (fun k j => csr_den V vzero a j k) b k i.
+Proof.
+  intros V vzero vadd vmul veqb SR Hz a b n_in m p Ha Hp.
+  destruct (csc_ndarray_proof V vzero vadd vmul veqb SR Hz a b n_in m p Ha Hp) as [r [E [_ [_ Hd]]]]. exists r. auto.
+Qed.
+
 (* ====================================================================== non-vacuity *)
 (* the hypotheses of the theorems above hold of concrete non-trivial operands over Z *)
 Definition exA : csr Z := mkCSR [1; 2; 3] [0; 1; 2] [0; 2; 3; 3].           (* 3 x 3, one empty row *)
@@ -1877,3 +2229,15 @@ Example dot_coo_ndarray_den_example :
 Proof.
   split; [repeat constructor; simpl; intuition congruence|]. split; [repeat constructor; lia|vm_compute; reflexivity].
 Qed.
+
+(* the two inputs on which the kernel used to fail (cancellation; unsorted positions): [[-3,-2,1],[1,3,-2]] and
+   [[0,-3,0],[0,0,0],[0,2,0]] in CSC form *)
+Example csc_ndarray_example :
+  let ac := mkCSR [-3; 1; -2; 3; 1; -2] [0; 1; 0; 1; 0; 1] [0; 2; 4; 6] in
+  let bd := fun j i => nth (Z.to_nat (j * 3 + i)) [0; 1; 2; 0; -3; 2; 0; -3; -1] 0 in
+  let a2 := mkCSR [-3; 2] [0; 2] [0; 0; 2; 2] in
+  let b2 := fun j i => nth (Z.to_nat (j * 2 + i)) [2; 2; 2; 1; 3; 3] 0 in
+  csr_wfb 3 2 ac = true /\ csr_wfb 3 3 a2 = true /\
+  dot_csc_ndarray_sparse Z 0 Z.add Z.mul Z.eqb 2 3 3 ac bd = KOk (mkCSR [0; -2; -11; 10] [0; 1; 0; 1] [0; 0; 2; 4]) /\
+  dot_csc_ndarray_sparse Z 0 Z.add Z.mul Z.eqb 3 3 2 a2 b2 = KOk (mkCSR [-6; 4; -3; 2] [0; 2; 0; 2] [0; 2; 4]).
+Proof. vm_compute. repeat split; reflexivity. Qed.
